@@ -13,7 +13,7 @@ RULE = (
     "straddle every dtype rung ({0..5}, {-3..3}, {254,255,256}, {65535,65536}, {2^31-1, 2^31, 2^31+1}, {-2^31-1}, "
     "{2^62, -2^62}, mixed) in three shape classes built by construction so that both construction strategies run: "
     "'small' (< 5 distinct values), 'dense-many' (>= 5 values, many uncommon cells -> per-value numpy.where) and "
-    "'sparse-many' (5..12 distinct values, 80..400 rows, so few uncommon cells that the per-row scan is selected). "
+    "'sparse-many' (5..12 distinct values, 80..400 rows or a batch-sized 256 .. 131 072 = 2^17 rows, so few uncommon cells that the per-row scan is selected). "
     "The array is handed over as int64 / the narrowest (un)signed dtype / int32 / uint64, C-ordered / Fortran-ordered / "
     "a strided view / read-only / a nested list, and its buffer is overwritten after the call (the index owns its content). Options: common omitted / a value of the array / a value absent from it; counts omitted / exact dict / exact dict plus absent categories with count 0; mapping "
     "omitted / injective / a permutation of the array's own codes / many-to-one (several values onto the common one, all values onto one); on the way back "
@@ -51,6 +51,10 @@ def cases(draw, tier):
     elif cls == "sparse":
         n = draw(st.integers(80, 400 if tier == "thorough" else 240))
         c = draw(st.integers(1, 3)) if ndim == 2 else None
+        if draw(st.integers(0, 7)) == 0:
+            # batch-sized inputs: a row count that is an exact power of two (or one off), up to 2^17 rows
+            n = draw(st.sampled_from([256, 1024, 4096, 65535, 65536, 65537, 131072]))
+            c = None if c is None else 1
         shape = [n] if c is None else [n, c]
         size = n * (c or 1)
         d = draw(st.integers(5, min(12, len(pal))))
@@ -58,7 +62,7 @@ def cases(draw, tier):
         fill = vals[0]
         # D / (U / size) >= 100  <=>  U <= D * size / 100
         umax = max(d - 1, int(d * size / 100.0) - draw(st.integers(0, 2)))
-        u = draw(st.integers(d - 1, max(d - 1, umax)))
+        u = draw(st.integers(d - 1, max(d - 1, min(umax, 60))))
         pos = draw(st.lists(st.integers(0, size - 1), min_size=u, max_size=u, unique=True))
         cells = []
         for i, p in enumerate(pos):
